@@ -338,7 +338,6 @@ func TestC07_P_FailingSource(t *testing.T) {
 	})
 }
 
-
 // F17 (fixed): a source cut off exactly at a chunk boundary with an error wrapping io.ErrUnexpectedEOF.
 func TestC07_R_F17_SourceCutAtChunkBoundary(t *testing.T) {
 	for _, n := range []int{0, 8, 16, 32, 33, 64} {
